@@ -627,7 +627,9 @@ pub fn is_snake_ident(s: &str) -> bool {
 }
 
 pub fn is_pascal_ident(s: &str) -> bool {
+    // one trailing underscore is the escape for a name the language or the generated code reserves (Self_, Option_)
     let b = s.trim_start_matches("r#");
+    let b = b.strip_suffix('_').unwrap_or(b);
     !b.is_empty() && b.chars().next().unwrap().is_ascii_uppercase() && b.chars().all(|c| c.is_ascii_alphanumeric())
 }
 
